@@ -563,6 +563,30 @@ func c16DiffKind(x, y *c16Ans) string {
 	return "count"
 }
 
+// c16IDs renders the multiset of item identities of an answer.
+func c16IDs(a *c16Ans) string {
+	ids := make([]string, len(a.Items))
+	for i, it := range a.Items {
+		ids[i] = it.ID
+	}
+	sort.Strings(ids)
+	return strconv.Itoa(a.Code) + ":" + strings.Join(ids, "\x1f")
+}
+
+// c16CommonEqual reports whether the items present in both answers carry the same values.
+func c16CommonEqual(a, b *c16Ans) bool {
+	v := map[string]string{}
+	for _, it := range a.Items {
+		v[it.ID] = it.Val
+	}
+	for _, it := range b.Items {
+		if av, ok := v[it.ID]; ok && av != it.Val {
+			return false
+		}
+	}
+	return true
+}
+
 // c16Compare evaluates one read request: in-memory answer (head) against store answer (parent) and both against the
 // reference. Keys: A:<class>:<deviating side>:<kind> for a path difference. When both paths agree with each other but not with
 // the reference (M:<class>:<kind>) nothing the statement asks for is broken - the update rules are judged record by record in
@@ -606,6 +630,12 @@ func c16Compare(rep *c16Report, rq c16Req, mem, store, exp, expStore *c16Ans, he
 	}
 	if exp == nil {
 		rep.violate("A:"+rq.Class+":mem-vs-store:"+c16DiffKind(mem, store)+suffix, fmt.Sprintf("%s: %s answers %s, %s answers %s", rq.Label, pathA, mem.raw(), pathB, store.raw()))
+		return
+	}
+	// the key-range case is recognised on the identities alone, so that a disagreement about a value elsewhere (reported
+	// under its own key) does not change the class of this one
+	if expStore != nil && exp.canon() != expStore.canon() && c16IDs(mem) == c16IDs(exp) && c16IDs(store) == c16IDs(expStore) && c16CommonEqual(mem, store) {
+		rep.violate("A:"+rq.Class+":store:lexicographic-key-range", fmt.Sprintf("%s: %s answers %s, %s answers %s", rq.Label, pathA, mem.raw(), pathB, store.raw())+" (the store path reads the key range as an interval of decimal strings, the in-memory path as an interval of numbers)")
 		return
 	}
 	memOK := mc == exp.canon()
